@@ -456,7 +456,8 @@ func (f *Frame) next(in *ssa.Next, st *State, reach Term) {
 			k := c.fresh(f.name(in.Name()+"_k"), c.sortOf(mt.Key()))
 			hin := app(elemOfArr(c.compSort[has]), "select", c.get(st, has), m)
 			vin := app(elemOfArr(c.compSort[val]), "select", c.get(st, val), m)
-			c.assume(tImp(ok, tAnd(tSelect(hin, k, SBool), c.valueInv(k, mt.Key(), st))), false)
+			// (a nil map has no entries to enumerate)
+			c.assume(tImp(ok, tAnd(tNot(tEq(m, intLit(0))), tSelect(hin, k, SBool), c.valueInv(k, mt.Key(), st))), false)
 			v := c.define(f.name(in.Name()+"_v"), tSelect(vin, k, c.sortOf(mt.Elem())))
 			c.assume(c.valueInv(v, mt.Elem(), st), false)
 			c.note("map range: arbitrary enumeration of present keys")
